@@ -11,7 +11,7 @@ ALL = ["C%02d" % i for i in range(1, 21)]
 
 
 def sh(cmd, cwd=None, env=None):
-    return subprocess.run(cmd, shell=True, text=True, cwd=cwd, env=env, stdout=subprocess.PIPE, stderr=subprocess.STDOUT)
+    return subprocess.run(cmd, shell=True, text=True, errors="replace", cwd=cwd, env=env, stdout=subprocess.PIPE, stderr=subprocess.STDOUT)
 
 
 def snapshot():
